@@ -1,3 +1,116 @@
-(* C30 — Events semaphore bounds, waits and times out correctly. (theorems to follow) *)
-From Coq Require Import NArith ZArith List.
-From LV Require Import model.Semaphore spec.SemaphoreSpec.
+(* C30 — Events semaphore bounds, waits and times out correctly.
+
+   Model: model/Semaphore.v ([step true] = the repaired utils/datasemaphore, one event per
+   critical section; sync.Cond and the timer are modelled).  Vocabulary: spec/SemaphoreSpec.v
+   ([fits], [exceeds], [covers] in unbounded arithmetic, [decide], [reachable] = every state
+   reachable by ANY sequence of calls / releases / terminations / timer callbacks / wake-ups
+   at ANY times with uint32/uint64 weights).  Only statements here; proofs in
+   proofs/SemaphoreProofs.v. *)
+From Coq Require Import NArith ZArith List Bool.
+From LV Require Import model.Semaphore spec.SemaphoreSpec proofs.SemaphoreProofs.
+Import ListNotations.
+
+(* The held amount never exceeds the capacity the semaphore was created with; the capacity is the
+   original one or zero (terminated). *)
+Theorem C30_bound : forall c st, m_wf c -> reachable c st ->
+  mle (held st) c /\ (cap st = c \/ cap st = mzero).
+Proof. exact sem_bound. Qed.
+
+(* TryAcquire answers exactly "held + w <= capacity" in unbounded arithmetic (no wrap-around)
+   and adds exactly w. *)
+Theorem C30_try_exact : forall c st now w, m_wf c -> reachable c st -> m_wf w ->
+  step true st now (ETry w) =
+  if fitsb (held st) w (cap st)
+  then (mkS (mplus (held st) w) (cap st) (waiting st) (woken st), [OTry true])
+  else (st, [OTry false]).
+Proof. exact sem_try. Qed.
+
+(* Acquire, on entry: granted at once iff it fits (exact accounting); refused at once if it
+   exceeds the capacity or its deadline has passed; otherwise blocked. *)
+Theorem C30_acquire_call : forall c st now id w tcall timeout, m_wf c -> reachable c st -> m_wf w ->
+  step true st now (ECall id w tcall timeout) =
+  match decide (held st) (cap st) w (tcall + timeout) now with
+  | DGrant => (mkS (mplus (held st) w) (cap st) (waiting st) (woken st), [ORet id true])
+  | DRefuse => (st, [ORet id false])
+  | DBlock => (mkS (held st) (cap st) (waiting st ++ [mkW id w (tcall + timeout)]) (woken st), [OBlock id])
+  end.
+Proof. exact sem_call. Qed.
+
+(* ... and every time the blocked caller runs again after a broadcast: the same table, so it is
+   granted in the first run in which it fits ("as soon as enough is released"). *)
+Theorem C30_acquire_wake : forall c st now x, m_wf c -> reachable c st ->
+  In x (woken st) -> NoDup (map wid (woken st)) ->
+  exists rest,
+    (forall y, In y rest <-> In y (woken st) /\ y <> x) /\
+    step true st now (EWake (wid x)) =
+    match decide (held st) (cap st) (ww x) (wdl x) now with
+    | DGrant => (mkS (mplus (held st) (ww x)) (cap st) (waiting st) rest, [ORet (wid x) true])
+    | DRefuse => (mkS (held st) (cap st) (waiting st) rest, [ORet (wid x) false])
+    | DBlock => (mkS (held st) (cap st) (waiting st ++ [x]) rest, [OBlock (wid x)])
+    end.
+Proof. exact sem_wake. Qed.
+
+(* Release: exact subtraction, or reset to zero with exactly one warning on over-release; and every
+   blocked caller is made runnable (no lost wake-up). *)
+Theorem C30_release : forall st now w,
+  let '(st', o) := step true st now (ERelease w) in
+  waiting st' = [] /\ woken st' = woken st ++ waiting st /\ cap st' = cap st /\
+  (covers (held st) w -> o = [] /\ held st' = msub (held st) w) /\
+  (~ covers (held st) w -> o = [OWarn (held st) w] /\ held st' = mzero).
+Proof. exact sem_release. Qed.
+
+(* Terminate: capacity zero for ever, every blocked caller runnable ... *)
+Theorem C30_terminate : forall st now,
+  let '(st', o) := step true st now ETerminate in
+  o = [] /\ cap st' = mzero /\ held st' = held st /\ waiting st' = [] /\ woken st' = woken st ++ waiting st.
+Proof. exact sem_terminate. Qed.
+Theorem C30_terminated_forever : forall st now ev, cap st = mzero -> cap (fst (step true st now ev)) = mzero.
+Proof. exact sem_terminated_forever. Qed.
+(* ... after which every non-empty request is refused (Acquire whatever its deadline, TryAcquire) ... *)
+Theorem C30_terminated_refuses : forall c st now x,
+  m_wf c -> reachable c st -> cap st = mzero -> m_wf (ww x) -> ww x <> mzero ->
+  loop_body true st now x = (st, [ORet (wid x) false]) /\
+  step true st now (ETry (ww x)) = (st, [OTry false]).
+Proof. exact sem_terminated_refuses. Qed.
+(* ... in particular whoever was blocked at that moment: their requests are non-empty, they are
+   runnable after Terminate, stay runnable until they run, and then return false. *)
+Theorem C30_terminate_blocked : forall c st now x,
+  m_wf c -> reachable c st -> cap st = c -> In x (pending st) ->
+  In x (woken (fst (step true st now ETerminate))) /\ m_wf (ww x) /\ ww x <> mzero.
+Proof. exact sem_terminate_blocked. Qed.
+Theorem C30_runnable_stays : forall st now ev x,
+  In x (woken st) -> ev <> EWake (wid x) -> In x (woken (fst (step true st now ev))).
+Proof. exact sem_woken_stays. Qed.
+
+(* Timeout.  A caller that runs at or after its deadline returns (true if it fits, else false). *)
+Theorem C30_deadline_returns : forall st now x, (wdl x <= now)%Z ->
+  exists ok st', loop_body true st now x = (st', [ORet (wid x) ok]).
+Proof. exact sem_deadline_returns. Qed.
+(* Under timer fairness (the runtime delivers the timer callback of a blocked Acquire at some time
+   t >= its deadline): whatever happens afterwards, the caller has returned or is runnable and is
+   never blocked again, so it returns the first time it is scheduled. *)
+Theorem C30_timeout : forall st x t tr,
+  uniq st -> In x (pending st) -> (wdl x <= t)%Z -> times_from t tr ->
+  fresh_run (fst (step true st t (ETimer (wid x)))) tr ->
+  let '(st2, log) := run true st ((t, ETimer (wid x)) :: tr) in
+  (exists t' ok, In (t', ORet (wid x) ok) log) \/ (In x (woken st2) /\ ~ In x (waiting st2)).
+Proof. exact sem_timeout. Qed.
+
+(* non-vacuity: a reachable state with held > 0 and two runnable waiters, one that fits and one
+   that does not *)
+Example C30_nonvacuous : reachable (mkM 2 20) ex_state /\
+  ex_state = mkS (mkM 1 10) (mkM 2 20) [] [mkW 2 (mkM 1 5) 21; mkW 3 (mkM 2 1) 52].
+Proof. split; [exact ex_state_reachable | exact ex_state_shape]. Qed.
+
+Print Assumptions C30_bound.
+Print Assumptions C30_try_exact.
+Print Assumptions C30_acquire_call.
+Print Assumptions C30_acquire_wake.
+Print Assumptions C30_release.
+Print Assumptions C30_terminate.
+Print Assumptions C30_terminated_forever.
+Print Assumptions C30_terminated_refuses.
+Print Assumptions C30_terminate_blocked.
+Print Assumptions C30_runnable_stays.
+Print Assumptions C30_deadline_returns.
+Print Assumptions C30_timeout.
